@@ -18,32 +18,29 @@
 //! Not judged: truncation exactly at a frame boundary (Noise has no close authentication);
 //! behaviour of reads after the first error; whether all frames before the tampered one are
 //! delivered before the error (counted as `clean_prefix_delivered`).
-use std::{sync::atomic::AtomicU32, time::Duration};
+use std::sync::atomic::AtomicU32;
 
 use futures::{AsyncReadExt, AsyncWriteExt};
 use libp2p_core::upgrade::{InboundConnectionUpgrade, OutboundConnectionUpgrade};
 use libp2p_identity::PeerId;
 use libp2p_noise as noise;
 use vmon::{
-    Args, Check, Rng, Sig, Tier, catch,
-    exec::block_on_timeout,
-    json,
+    Args, Check, Rng, Sig, Tier, catch, json,
     pipe::{DirCtl, End, Sched, pipe},
 };
 
 use crate::util::*;
 
 pub const MAX_FRAME_LEN: usize = 65535 - 1024;
-const WATCHDOG: Duration = Duration::from_secs(30);
 
 static S_T: AtomicU32 = AtomicU32::new(0);
 static S_F: AtomicU32 = AtomicU32::new(0);
 
 pub type Session = (PeerId, noise::Output<End>);
 
-/// real handshake between two configs over the given ends; None = watchdog
-pub fn handshake(cfg_a: noise::Config, cfg_b: noise::Config, a: End, b: End) -> Option<(Result<Session, noise::Error>, Result<Session, noise::Error>)> {
-    block_on_timeout(futures::future::join(cfg_a.upgrade_outbound(a, "/noise"), cfg_b.upgrade_inbound(b, "/noise")), WATCHDOG)
+/// real handshake between two configs over the given ends, driven deterministically
+pub fn handshake(cfg_a: noise::Config, cfg_b: noise::Config, a: End, b: End) -> Driven<(Result<Session, noise::Error>, Result<Session, noise::Error>)> {
+    drive(futures::future::join(cfg_a.upgrade_outbound(a, "/noise"), cfg_b.upgrade_inbound(b, "/noise")), 2_000_000)
 }
 
 fn tagged(rng: &mut Rng, n: usize, tag: u8) -> Vec<u8> {
@@ -52,10 +49,6 @@ fn tagged(rng: &mut Rng, n: usize, tag: u8) -> Vec<u8> {
 }
 
 fn transparency_case(check: &Check, rng: &mut Rng) {
-    // budget guard: every watchdog expiry costs WATCHDOG seconds; stop starting cases after a few
-    if check.counter("watchdog_fired") >= 16 {
-        return;
-    }
     let ka = gen_key(rng.usize(3), rng);
     let kb = gen_key(rng.usize(3), rng);
     let (sa, sb) = if rng.chance(1, 5) { (Sched::smooth(), Sched::smooth()) } else { (Sched::random(rng), Sched::random(rng)) };
@@ -70,8 +63,9 @@ fn transparency_case(check: &Check, rng: &mut Rng) {
     };
     let hs = match catch(|| handshake(ca_cfg, cb_cfg, a, b)) {
         Err(p) => return check.violation(format!("panic@{}", p.site()), format!("handshake panicked: {}", p.msg), json!({"schedules": desc})),
-        Ok(None) => return check.inconclusive("handshake watchdog"),
-        Ok(Some(h)) => h,
+        Ok(Driven::Budget) => return check.inconclusive("handshake poll budget"),
+        Ok(Driven::Stalled) => return check.violation("honest-handshake-stalls", "both honest sides wait forever on a lossless pipe", json!({"schedules": desc})),
+        Ok(Driven::Done(h)) => h,
     };
     let (oa, ob) = match hs {
         (Ok((_, oa)), Ok((_, ob))) => (oa, ob),
@@ -134,13 +128,14 @@ fn transparency_case(check: &Check, rng: &mut Rng) {
     let witness = || json!({"schedules": desc, "capacity": [ca, cb], "a_script": wa.iter().map(|(c, f)| json!([c.len(), f])).collect::<Vec<_>>(),
         "b_script": wb.iter().map(|(c, f)| json!([c.len(), f])).collect::<Vec<_>>(), "read_sizes": reads});
     let fut = futures::future::join(side(oa, wa.clone(), reads.clone()), side(ob, wb.clone(), reads.clone()));
-    match catch(|| block_on_timeout(fut, WATCHDOG)) {
+    let poll_budget = 2_000_000 + 400 * (sent_a.len() + sent_b.len()) as u64;
+    match catch(|| drive(fut, poll_budget)) {
         Err(p) => check.violation(format!("panic@{}", p.site()), format!("noise io panicked: {}", p.msg), witness()),
-        Ok(None) => {
-            check.count("watchdog_fired", 1);
-            check.inconclusive("noise transparency watchdog")
-        }
-        Ok(Some((ra, rb))) => {
+        Ok(Driven::Budget) => check.inconclusive("noise transparency poll budget"),
+        // every byte was written, flushed and the writers closed; the pipe is lossless; yet a reader never sees
+        // its data / EOF and no waker is outstanding: bytes are stuck inside the channel
+        Ok(Driven::Stalled) => check.violation("noise-stream-stalls", "written and closed, but the peer's read never completes (logical deadlock, no outstanding waker)", witness()),
+        Ok(Driven::Done((ra, rb))) => {
             for (who, got, want) in [("b-to-a", &ra, &sent_b), ("a-to-b", &rb, &sent_a)] {
                 match got {
                     Err(e) => check.violation(format!("noise-io-error-{}", e.split(':').next().unwrap_or("?")), format!("{who}: {e}"), witness()),
@@ -175,14 +170,12 @@ enum Fault {
 /// One fresh session; `dir_a_to_b` chooses which side writes. Frames = plaintext per flush.
 /// `fault.at` is relative to the start of the post-handshake ciphertext of the writing direction.
 fn tamper_session(check: &Check, keys: &(noise::Config, noise::Config), frames: &[Vec<u8>], dir_a_to_b: bool, fault: &Fault) {
-    if check.counter("watchdog_fired") >= 16 {
-        return;
-    }
     let (a, b, a2b, b2a) = pipe(Sched::smooth(), Sched::smooth());
     let hs = match catch(|| handshake(keys.0.clone(), keys.1.clone(), a, b)) {
         Err(p) => return check.violation(format!("panic@{}", p.site()), p.msg.clone(), json!({})),
-        Ok(None) => return check.inconclusive("handshake watchdog"),
-        Ok(Some(h)) => h,
+        Ok(Driven::Budget) => return check.inconclusive("handshake poll budget"),
+        Ok(Driven::Stalled) => return check.violation("honest-handshake-stalls", "both honest sides wait forever on a lossless pipe", json!({})),
+        Ok(Driven::Done(h)) => h,
     };
     let ((_, oa), (_, ob)) = match hs {
         (Ok(x), Ok(y)) => (x, y),
@@ -198,7 +191,7 @@ fn tamper_session(check: &Check, keys: &(noise::Config, noise::Config), frames: 
     let witness = || json!({"frames": frames.iter().map(|f| f.len()).collect::<Vec<_>>(), "fault": format!("{fault:?}"), "direction": if dir_a_to_b { "initiator-to-responder" } else { "responder-to-initiator" }});
     let fs = frames.to_vec();
     let res = catch(|| {
-        block_on_timeout(
+        drive(
             async move {
                 for f in &fs {
                     // writer errors (pipe closed by a truncation) are the transport's, not judged
@@ -219,16 +212,15 @@ fn tamper_session(check: &Check, keys: &(noise::Config, noise::Config), frames: 
                 };
                 (got, end)
             },
-            WATCHDOG,
+            20_000_000,
         )
     });
     let (got, end) = match res {
         Err(p) => return check.violation(format!("panic@{}", p.site()), format!("noise read panicked: {}", p.msg), witness()),
-        Ok(None) => {
-            check.count("watchdog_fired", 1);
-            return check.inconclusive("tamper watchdog");
-        }
-        Ok(Some(x)) => x,
+        Ok(Driven::Budget) => return check.inconclusive("tamper poll budget"),
+        // the writer closed its end, so the reader must reach an error or EOF
+        Ok(Driven::Stalled) => return check.violation("tampered-stream-reader-stalls", "reader neither errors nor sees EOF although the writer closed", witness()),
+        Ok(Driven::Done(x)) => x,
     };
     // which frame holds the fault
     let at = match fault {
@@ -309,11 +301,11 @@ pub fn run(args: &Args) -> i32 {
          transparency case carrying >= 1 byte, or a tamper layout; distinct by (schedule, sizes)",
     );
     let thorough = args.tier == Tier::Thorough;
-    let n_t = budget(args, 3, 400, 8_000);
+    let n_t = budget(args, 3, 300, 8_000);
     vmon::par_cases(&check, n_t, args.threads, |_, rng| transparency_case(&check, rng));
     check.note("phase_s_transparency", json!(check.elapsed()));
     // small layouts: every position
-    let n_l = budget(args, 1, 48, 400);
+    let n_l = budget(args, 1, 40, 400);
     vmon::par_cases(&check, n_l, args.threads, |i, rng| {
         let k = 1 + (i % 4) as usize;
         let sizes: Vec<usize> = (0..k).map(|_| *rng.pick(&[1usize, 2, 5, 16, 31, 40])).collect();
